@@ -1062,6 +1062,10 @@ func (s *Sim) Run() {
 			t.quantum = s.tape.Draw(LaneSched, s.cfg.Q)
 		}
 		s.Decisions++
+		if s.Decisions%2000 == 0 {
+			// a long run is not a stalled one (the watchdog of the worker looks at this counter)
+			atomic.AddInt64(&progress, 1)
+		}
 		if t != s.last {
 			s.Switches++
 			s.ilHash = fnv(fnv(s.ilHash, strconv.Itoa(t.ID)), t.point)
